@@ -249,39 +249,72 @@ Qed.
    compress13_m: the whole of LZ13CompressionFormat::compress *)
 Local Open Scope N_scope.
 
-(* below 2 GiB the machine-level model is the model all C08-C10 theorems speak about *)
-Theorem compress13_m_eq m x : lenN x < 2 ^ 31 -> compress13_m m x = compress13 m x.
+(* the reservation: for every length below 2^62 the three additions do not overflow in either profile, the
+   capacity check passes, and the request is exactly 12 + n + (n+7)/8 - linear in the input the caller already
+   holds.  (The expression of the code before the repair of F12, 9 + n + (((n - 1) >> 3) + 1), does not satisfy
+   this for n = 0: it underflows - panic when checked, a request of about 2^61 bytes when wrapping.) *)
+Theorem compress13_reserve_ok m n : n < 2 ^ 62 -> compress13_reserve m n = Ok (12 + n + (n + 7) / 8).
 Proof.
-  intros Hn. unfold compress13_m, compress13, compress13_with. rewrite (calculate_lz13_header_m_eq x Hn).
+  intros Hn. change (2 ^ 62) with 4611686018427387904 in Hn. unfold compress13_reserve.
+  assert (Hmax : maxw W64 = 18446744073709551616) by reflexivity.
+  rewrite (add_w_ok W64 m 12 n) by (rewrite Hmax; lia). cbn [bind].
+  rewrite (add_w_ok W64 m n 7) by (rewrite Hmax; lia). cbn [bind].
+  rewrite add_w_ok by (rewrite Hmax, N.shiftr_div_pow2; change (2 ^ 3) with 8; lia). cbn [bind].
+  rewrite N.shiftr_div_pow2. change (2 ^ 3) with 8. unfold ISIZE_MAX. change (2 ^ 63 - 1) with 9223372036854775807.
+  destruct (N.ltb_spec 9223372036854775807 (12 + n + (n + 7) / 8)); [lia | reflexivity].
+Qed.
+
+Corollary compress13_reserve_linear m n : n < 2 ^ 62 -> exists c, compress13_reserve m n = Ok c /\ c <= 2 * n + 13.
+Proof.
+  intros Hn. rewrite (compress13_reserve_ok m n Hn). eexists. split; [reflexivity|]. lia.
+Qed.
+
+(* up to the largest slice: the only other outcome is Vec::reserve's own capacity panic *)
+Theorem compress13_reserve_boundary m n : n < 2 ^ 63 ->
+  (12 + n + (n + 7) / 8 <= ISIZE_MAX -> compress13_reserve m n = Ok (12 + n + (n + 7) / 8)) /\
+  (ISIZE_MAX < 12 + n + (n + 7) / 8 -> compress13_reserve m n = Panic PAlloc).
+Proof.
+  intros Hn. change (2 ^ 63) with 9223372036854775808 in Hn. unfold compress13_reserve.
+  assert (Hmax : maxw W64 = 18446744073709551616) by reflexivity.
+  rewrite (add_w_ok W64 m 12 n) by (rewrite Hmax; lia). cbn [bind].
+  rewrite (add_w_ok W64 m n 7) by (rewrite Hmax; lia). cbn [bind].
+  rewrite add_w_ok by (rewrite Hmax, N.shiftr_div_pow2; change (2 ^ 3) with 8; lia). cbn [bind].
+  rewrite N.shiftr_div_pow2. change (2 ^ 3) with 8.
+  split; intros H; destruct (N.ltb_spec ISIZE_MAX (12 + n + (n + 7) / 8)); try lia; reflexivity.
+Qed.
+
+Lemma too_large13_false x : lenN x < 2 ^ 32 -> too_large13 x = false.
+Proof. intros H. unfold too_large13. change (2 ^ 32) with 4294967296 in H. apply N.ltb_ge. lia. Qed.
+Lemma too_large13_true x : 2 ^ 32 <= lenN x -> too_large13 x = true.
+Proof. intros H. unfold too_large13. change (2 ^ 32) with 4294967296 in H. apply N.ltb_lt. lia. Qed.
+
+(* the size guard of F21 *)
+Theorem compress13_m_large m x : 2 ^ 32 <= lenN x -> compress13_m m x = Err ETooLarge.
+Proof. intros H. unfold compress13_m. rewrite (too_large13_true x H). reflexivity. Qed.
+
+(* every input the guard lets through: Ok, with the header value of the machine-level computation *)
+Theorem compress13_m_small m x : lenN x < 2 ^ 32 ->
+  exists h, compress13_m m x = Ok (emit_loop tok11 (header13 h (lenN x)) (tokens 4096 x)).
+Proof.
+  intros Hn. unfold compress13_m. rewrite (too_large13_false x Hn).
+  assert (H63 : lenN x < 2 ^ 63) by (change (2 ^ 32) with 4294967296 in Hn; change (2 ^ 63) with 9223372036854775808; lia).
+  destruct (calculate_lz13_header_m_total x H63) as [h Hh]. rewrite Hh. cbn [bind].
+  rewrite compress13_reserve_ok by (change (2 ^ 32) with 4294967296 in Hn; change (2 ^ 62) with 4611686018427387904; lia).
+  cbn [bind]. eauto.
+Qed.
+
+(* below 2 GiB the machine-level model is the list model (with its guard) *)
+Theorem compress13_m_eq m x : lenN x < 2 ^ 31 -> compress13_m m x = compress13_o m x.
+Proof.
+  intros Hn. unfold compress13_m, compress13_o.
+  assert (H32 : lenN x < 2 ^ 32) by (change (2 ^ 31) with 2147483648 in Hn; change (2 ^ 32) with 4294967296; lia).
+  rewrite (too_large13_false x H32). unfold compress13, compress13_with. rewrite (calculate_lz13_header_m_eq x Hn).
   destruct (calculate_lz13_header x) as [h|e|p]; cbn [bind]; try reflexivity.
+  rewrite compress13_reserve_ok by (change (2 ^ 31) with 2147483648 in Hn; change (2 ^ 62) with 4611686018427387904; lia).
+  cbn [bind].
   change (2 ^ 31) with 2147483648 in Hn.
   assert (Hmax : maxw W64 = 18446744073709551616) by reflexivity.
   rewrite (add_w_ok W64 m 12 (lenN x)) by (rewrite Hmax; lia). cbn [bind].
   rewrite (add_w_ok W64 m (lenN x) 7) by (rewrite Hmax; lia). cbn [bind].
-  rewrite add_w_ok by (rewrite Hmax, N.shiftr_div_pow2; change (2 ^ 3) with 8; lia). cbn [bind].
-  unfold ISIZE_MAX. rewrite N.shiftr_div_pow2. change (2 ^ 3) with 8. change (2 ^ 63 - 1) with 9223372036854775807.
-  destruct (N.ltb_spec 9223372036854775807 (12 + lenN x + (lenN x + 7) / 8)); [lia | reflexivity].
-Qed.
-
-(* every input: the result is Ok, except that Vec::reserve itself panics when the requested capacity
-   12 + n + (n+7)/8 exceeds isize::MAX - which needs an input of more than 2^62 bytes *)
-Theorem compress13_m_total m x : lenN x < 2 ^ 63 ->
-  (12 + lenN x + (lenN x + 7) / 8 <= ISIZE_MAX -> exists r, compress13_m m x = Ok r) /\
-  (ISIZE_MAX < 12 + lenN x + (lenN x + 7) / 8 -> compress13_m m x = Panic PAlloc).
-Proof.
-  intros Hn. unfold compress13_m. destruct (calculate_lz13_header_m_total x Hn) as [h Hh]. rewrite Hh. cbn [bind].
-  change (2 ^ 63) with 9223372036854775808 in Hn.
-  assert (Hmax : maxw W64 = 18446744073709551616) by reflexivity.
-  rewrite (add_w_ok W64 m 12 (lenN x)) by (rewrite Hmax; lia). cbn [bind].
-  rewrite (add_w_ok W64 m (lenN x) 7) by (rewrite Hmax; lia). cbn [bind].
-  rewrite add_w_ok by (rewrite Hmax, N.shiftr_div_pow2; change (2 ^ 3) with 8; lia). cbn [bind].
-  rewrite N.shiftr_div_pow2. change (2 ^ 3) with 8.
-  split; intros H; destruct (N.ltb_spec ISIZE_MAX (12 + lenN x + (lenN x + 7) / 8)); try lia; eauto.
-Qed.
-
-Corollary compress13_m_ok m x : lenN x < 2 ^ 62 -> exists r, compress13_m m x = Ok r.
-Proof.
-  intros Hn. change (2 ^ 62) with 4611686018427387904 in Hn.
-  apply (compress13_m_total m x); [change (2 ^ 63) with 9223372036854775808; lia|].
-  unfold ISIZE_MAX. change (2 ^ 63 - 1) with 9223372036854775807. lia.
+  rewrite add_w_ok by (rewrite Hmax, N.shiftr_div_pow2; change (2 ^ 3) with 8; lia). cbn [bind]. reflexivity.
 Qed.
